@@ -1,7 +1,11 @@
 """C05 - concurrent transactions commit exactly their own writes; no lost increments.
 
 Body commands: set, incr, get, delete, and the other read-modify-writes of the transaction backend: expire (buffers the backend's
-current value and writes it back at commit) and set(exist=True|False) (decides on the key's presence).
+current value and writes it back at commit) and set(exist=True|False) (decides on the key's presence); explicit `tx.commit()` /
+`tx.rollback()` on the Transaction object in the middle of a body (the body goes on: a body is a sequence of segments).
+Block endings: the body returns, raises an Exception, raises a BaseException that is not an Exception, gets LockedError, or the
+task is CANCELLED while suspended inside the body (scheduler entries `cancel`, at every gate of a body: before a backend command,
+while waiting for a lock, in a sleep).
 
 proof: lean/CashewsVerif/Props/C05.lean (invariants of the TxSched transition system over all schedules).
 tie:   2-4 real tasks run on one Cache('mem://') whose Memory is gated by a deterministic scheduler
@@ -27,7 +31,8 @@ TRUSTED = [
     "Lean 4.33.0 kernel; axioms of every theorem audited to be within {propext, Classical.choice, Quot.sound}",
     "hand-written model lean/CashewsVerif/Model/TxSched.lean of cashews/wrapper/transaction.py + cashews/backends/transaction.py, "
     "tied to the code by this run's schedule correspondence (labels, store, locks, instants, outcomes at every step)",
-    "asyncio assumptions A1 (no preemption between suspension points) and A3 (ContextVar is per task) - exercised on the real loop, not proved",
+    "asyncio assumptions A1 (no preemption between suspension points) and A3 (ContextVar is per task) - exercised on the real loop, not proved; "
+    "task.cancel() raises CancelledError at the await the task is suspended at (the gate future, or asyncio.sleep)",
     "harness: gate scheduler and 1/40 s timer grid (harness/txsched.py), virtual clock (harness/vtime.py); the gathered unlocks of one "
     "transaction are released in lock-key order",
     "values are integers; TTLs are not modelled (C03/C04 cover the overlay's value/TTL semantics): `expire` is given TTLs of 1-2 h, "
@@ -78,7 +83,7 @@ def canon_outcome(out) -> str:
     if out[0] == "returned":
         return "ret:" + ",".join("n" if r is None else str(r) for r in out[1])
     if out[0] == "raised":
-        return {"BodyError": "raise:body", "LockedError": "raise:locked"}.get(out[1], "raise:" + out[1])
+        return {"BodyError": "raise:body", "LockedError": "raise:locked", "BodyBase": "raise:base"}.get(out[1], "raise:" + out[1])
     return out[0]
 
 
@@ -96,9 +101,24 @@ def case_lines(case, trace):
         lines.append(" ".join(["task", p["kind"], p.get("mode", "fast"), str(p.get("timeout", 0)), p.get("form", "ctx")]
                               + [op_word(op) for op in p["ops"] if op[0] != "gc"]))
     for e in trace:
-        lines.append(f"run {e[1]}" if e[0] == "run" else f"adv {e[1]}")
+        lines.append(f"run {e[1]}" if e[0] == "run" else f"cancel {e[1]}" if e[0] == "cancel" else f"adv {e[1]}")
     lines.append("end")
     return lines
+
+
+def handles_ok(ops, form) -> bool:
+    """every commit / rollback op has a `Transaction` object at hand: the block itself or an enclosing nested block is in
+    context-manager form (`async with cache.transaction(...) as tx`)"""
+    stack = [form]
+    for op in ops:
+        if op[0] == "nin":
+            stack.append(op[1])
+        elif op[0] == "nout":
+            if len(stack) > 1:
+                stack.pop()
+        elif op[0] in ("commit", "rollback") and "ctx" not in stack:
+            return False
+    return True
 
 
 # ---- the spec oracle: the property statement evaluated on the implementation's own trace ---------------
@@ -108,10 +128,14 @@ def attempts(timeout_u: int) -> int:
 
 
 def spec_body(ops, reads, retimed=None, conditional=None, read_kinds=None):
-    """sequential meaning of a transaction body, given what its backend reads returned
+    """sequential meaning of a transaction body, given what its backend reads returned.  A body is a sequence of segments
+    separated by its explicit commits / rollbacks.  -> dict(kind = ok | raise | raise_base | incomplete, ov, dl = write-set of the
+    segment open at the end, res = results, commits = [(dl, ov, incs)] one per explicit commit passed, in order,
+    incs = increments [(k, n)] of the open segment)
     (`retimed` / `conditional`, statistics only: collect the keys whose buffered value came from the backend read of an
     `expire` / that a conditional `set` wrote; `read_kinds`: for each backend read consumed, (command, key))"""
     ov, dl, res = {}, set(), []
+    commits, incs = [], []
     src = iter(reads)
 
     class _It:
@@ -121,6 +145,9 @@ def spec_body(ops, reads, retimed=None, conditional=None, read_kinds=None):
                 read_kinds.append((op[0], op[1]))
             return v
     it = _It()
+
+    def out(kind):
+        return {"kind": kind, "ov": ov, "dl": dl, "res": res, "commits": commits, "incs": incs}
     try:
         for op in ops:
             if op[0] == "set":
@@ -137,6 +164,7 @@ def spec_body(ops, reads, retimed=None, conditional=None, read_kinds=None):
                     cur = next(it)
                     ov[k] = (cur or 0) + op[2]
                 res.append(ov[k])
+                incs.append((k, op[2]))
             elif op[0] == "get":
                 k = op[1]
                 res.append(None if k in dl else ov[k] if k in ov else next(it))
@@ -165,11 +193,26 @@ def spec_body(ops, reads, retimed=None, conditional=None, read_kinds=None):
                         ov[k] = cur
                         if retimed is not None:
                             retimed.add(k)
+            elif op[0] == "commit":
+                commits.append((dl, ov, incs))
+                ov, dl, incs = {}, set(), []
+            elif op[0] == "rollback":
+                ov, dl, incs = {}, set(), []
             elif op[0] == "raise":
-                return ("raise", ov, dl, res)
+                return out("raise_base" if len(op) > 1 and op[1] == "base" else "raise")
     except StopIteration:
-        return ("incomplete", ov, dl, res)
-    return ("ok", ov, dl, res)
+        return out("incomplete")
+    return out("ok")
+
+
+def commit_labels(dl, ov):
+    """the backend commands of the commit of a write-set, as canonical labels with their expected effect"""
+    out = []
+    if dl:
+        out.append(("delete_many:" + "+".join(map(str, sorted(dl))), "del", set(dl)))
+    if ov:
+        out.append(("set_many:" + "+".join(f"{k}={v}" for k, v in sorted(ov.items())), "set", dict(ov)))
+    return out
 
 
 def oracle(case, res):
@@ -182,21 +225,36 @@ def oracle(case, res):
     steps = {i: [] for i in range(len(progs))}      # tid -> [(label, before, after, locks, now, global index)]
     gi = 0
     si = 0
+    cancelled_at = {}                               # tid -> global index of the step at which it was cancelled
     for e in res["trace"]:
-        if e[0] != "run":
+        if e[0] not in ("run", "cancel"):
             continue
         data, locks, now = res["snaps"][si]
         si += 1
-        steps[e[1]].append((canon_label(e[2]), before, data, locks, now, gi))
+        if e[0] == "cancel":
+            cancelled_at.setdefault(e[1], gi)
+            if data != before:
+                bad.append(("own_writes_only", f"cancelling task {e[1]} changed the store from {before} to {data}"))
+            steps[e[1]].append(("cancel", before, data, locks, now, gi))
+        else:
+            steps[e[1]].append((canon_label(e[2]), before, data, locks, now, gi))
         gi += 1
         before = data
     outs = {i: canon_outcome(res["outcomes"].get(i, ("unfinished",))) for i in range(len(progs))}
     within = {}
     rmw_reads = {}
+    durable = {}                                    # tid -> the increments its commits made durable (None: own_writes_only already failed)
     for tid, p in enumerate(progs):
         st = steps[tid]
-        flat = [op for op in p["ops"] if op[0] not in ("nin", "nout", "sleep", "gc")]
+        flat = [op for op in p["ops"] if op[0] not in ("nin", "nout", "sleep", "gc") and not (p["kind"] == "plain" and op[0] in ("commit", "rollback"))]
         diffs = [(lab, {k: a.get(k) for k in set(b) | set(a) if a.get(k) != b.get(k)}) for lab, b, a, _, _, _ in st]
+        if p["kind"] == "plain" and tid in cancelled_at:
+            # a task outside any transaction that was cancelled: what it did before went straight to the store; nothing afterwards
+            labs = [x[0] for x in st]
+            if outs[tid] != "cancelled" or labs[-1] != "cancel":
+                bad.append(("ctx_isolation", f"task {tid} (outside any transaction) was cancelled but went on: {labs}, outcome {outs[tid]}"))
+            stats["plain_task_cancelled"] = 1
+            continue
         if p["kind"] == "plain":
             # ctx_isolation: every command of a task outside any transaction goes straight to the store
             exp_labels, exp_res = ["start"], []
@@ -231,8 +289,8 @@ def oracle(case, res):
                         ok = False
                 j += 1
             got = [s[0] for s in st]
-            raised = any(op[0] == "raise" for op in flat)
-            exp_out = "raise:body" if raised else canon_outcome(("returned", exp_res))
+            raised = next((op for op in flat if op[0] == "raise"), None)
+            exp_out = ("raise:base" if len(raised) > 1 else "raise:body") if raised else canon_outcome(("returned", exp_res))
             if got != exp_labels or not ok or outs[tid] != exp_out:
                 bad.append(("ctx_isolation", f"task {tid} is outside any transaction but its commands {got} / effects / outcome {outs[tid]} "
                                              f"are not the direct ones {exp_labels} / {exp_out}"))
@@ -254,7 +312,8 @@ def oracle(case, res):
             tail += 1
         locked_out = tail > 0 and tail == attempts(p["timeout"])
         retimed, conditional, read_kinds = set(), set(), []
-        kind, ov, dl, rs = spec_body(flat, reads, retimed, conditional, read_kinds)
+        sp = spec_body(flat, reads, retimed, conditional, read_kinds)
+        kind = sp["kind"]
         rmw_reads[tid] = read_kinds
         if any(lab.startswith("exists:") for lab in labels):
             stats["conditional_set_reads_backend"] = 1
@@ -263,39 +322,87 @@ def oracle(case, res):
             fails0 = sum(1 for a, b in zip(labels, labels[1:]) if a.startswith("set_lock:") and b == a)
             if fails0 and p["mode"] != "fast":
                 stats["expire_in_tx_with_lock_wait"] = 1
-        if locked_out:
+        if tid in cancelled_at:
+            kind = "cancelled"
+        elif locked_out:
             kind = "locked"
             stats["locked_error"] = 1
         elif kind == "incomplete":
             bad.append(("own_writes_only", f"task {tid}: its backend reads do not match its body - a read-through incr/get of a key it had not "
                                            f"written never reached the store, or the body did not run to its end (commands {labels}, caller got {outs[tid]})"))
             continue
-        writes = [(lab, d) for lab, d in diffs if d]
-        foreign = [lab for lab, d in diffs if d and not (lab.startswith("set_many:") or lab.startswith("delete_many:"))]
+        # what the task's steps may do to the store: the commits of the segments its body committed explicitly, in order, and -
+        # iff the body returned - the commit of the last segment.  Nothing else, whatever ended the block.
+        groups = [commit_labels(dl, ov) for dl, ov, _ in sp["commits"]]
+        seg_incs = [incs for _, _, incs in sp["commits"]]
         if kind == "ok":
-            exp_commit = ([f"delete_many:" + "+".join(map(str, sorted(dl)))] if dl else []) + \
-                         (["set_many:" + "+".join(f"{k}={v}" for k, v in sorted(ov.items()))] if ov else [])
-            got_commit = [l for l in labels if l.startswith("set_many:") or l.startswith("delete_many:")]
-            eff_ok = True
-            for lab, b, a, _, _, _ in st:
-                if lab.startswith("delete_many:"):
-                    want = {k: v for k, v in b.items() if k not in dl}
-                    eff_ok &= a == want
-                elif lab.startswith("set_many:"):
-                    want = dict(b)
-                    want.update(ov)
-                    eff_ok &= a == want
-            if outs[tid] != canon_outcome(("returned", rs)):
-                bad.append(("own_writes_only", f"task {tid}: body finished normally with results {rs} but the caller got {outs[tid]}"))
-            elif got_commit != exp_commit or foreign or not eff_ok:
-                bad.append(("own_writes_only", f"task {tid}: body finished normally with write-set set={ov} delete={sorted(dl)} "
-                                               f"but its commit commands were {got_commit} (store changes at {[w[0] for w in writes]})"))
+            groups.append(commit_labels(sp["dl"], sp["ov"]))
+            seg_incs.append(sp["incs"])
+        got = [(lab, b, a, g) for lab, b, a, _, _, g in st if lab.startswith(("set_many:", "delete_many:"))]
+        got_labels = [x[0] for x in got]
+        foreign = [lab for lab, d in diffs if d and not (lab.startswith("set_many:") or lab.startswith("delete_many:"))]
+        if kind in ("ok", "raise", "raise_base"):
+            ngroups = len(groups)           # the body ran to its end / to its raise: every one of these commits, no other
+            match = got_labels == [x[0] for grp in groups for x in grp]
         else:
-            want_out = "raise:body" if kind == "raise" else "raise:locked"
-            if writes:
-                bad.append(("own_writes_only", f"task {tid}: body raised but its steps changed the store: {writes}"))
-            if outs[tid] != want_out:
-                bad.append(("own_writes_only", f"task {tid}: body's outcome is {want_out} but the caller got {outs[tid]}"))
+            # interrupted (LockedError, cancellation): the commits of the first m explicitly committed segments, for some m
+            ngroups = next((m for m in range(len(groups) + 1) if got_labels == [x[0] for grp in groups[:m] for x in grp]), None)
+            match = ngroups is not None
+        eff_ok = True
+        if match:
+            for (lab, b, a, _), (_, what, payload) in zip(got, [x for grp in groups[:ngroups] for x in grp]):
+                want = {k: v for k, v in b.items() if k not in payload} if what == "del" else {**b, **payload}
+                eff_ok &= a == want
+        durable[tid] = [inc for incs in seg_incs[:ngroups or 0] for inc in incs] if match else None
+        want_out = {"ok": canon_outcome(("returned", sp["res"])), "raise": "raise:body", "raise_base": "raise:base",
+                    "locked": "raise:locked", "cancelled": "cancelled"}[kind]
+        how = {"ok": "finished normally", "raise": "raised an Exception", "raise_base": "raised a BaseException that is not an Exception",
+               "locked": "got LockedError", "cancelled": "was cancelled while suspended inside the block"}[kind]
+        if outs[tid] != want_out:
+            bad.append(("own_writes_only", f"task {tid}: body {how}" + (f" with results {sp['res']}" if kind == "ok" else "") +
+                                           f" but the caller got {outs[tid]}"))
+        elif not match or foreign or not eff_ok:
+            exp = [[x[0] for x in grp] for grp in groups]
+            bad.append(("own_writes_only", f"task {tid}: body {how}; its explicit commits" + (" and its final commit" if kind == "ok" else "") +
+                                           f" are {exp}" + ("" if kind in ("ok", "raise", "raise_base") else " (a prefix of them may have happened)") +
+                                           f" but its steps issued {got_labels} (store changes at {[lab for lab, d in diffs if d]})"))
+        if kind == "cancelled":
+            c = cancelled_at[tid]
+            late = [lab for lab, _, _, _, _, g in st if g > c and not lab.startswith("unlock:")]
+            if late:
+                bad.append(("own_writes_only", f"task {tid} was cancelled at step {c} inside its block but afterwards still issued {late} "
+                                               f"(only the unlocks of its rollback may follow)"))
+            held_then = [k for k, o in st[[x[5] for x in st].index(c)][3].items() if o == tid]
+            stats["cancelled_inside_block"] = 1
+            if any(not x[0].startswith("unlock:") and x[0] not in ("start", "cancel") and not x[0].startswith(("set_lock:", "get:", "exists:"))
+                   for x in st) or sp["ov"] or sp["dl"]:
+                stats["cancelled_with_buffered_writes"] = 1
+            if held_then:
+                stats["cancelled_holding_locks"] = 1
+            prev = [x[0] for x in st if x[5] < c]
+            if prev and prev[-1].startswith("set_lock:") and not held_then or (len(prev) >= 2 and prev[-1] == prev[-2] and prev[-1].startswith("set_lock:")):
+                stats["cancelled_while_waiting_for_a_lock"] = 1
+            if any(k for k, o in res.get("final_locks", {}).items() if o == tid):
+                bad.append(("own_writes_only", f"task {tid} was cancelled but still owns {sorted(res['final_locks'])} at the end"))
+        if kind == "raise_base":
+            stats["base_exception_leaves_block"] = 1
+        nexp = sum(1 for op in flat if op[0] in ("commit", "rollback"))
+        if nexp:
+            body_cmds = [x[0] for x in st]
+            if any(op[0] == "commit" for op in flat) and len(sp["commits"]) >= 1:
+                stats["explicit_commit_midbody"] = 1
+            if any(op[0] == "rollback" for op in flat):
+                stats["explicit_rollback_midbody"] = 1
+            # a lock released by an explicit commit / rollback and taken again later in the same block
+            names = [l.split(":", 1)[1] for l in body_cmds if l.startswith("unlock:")]
+            seen_unlock = set()
+            for l in body_cmds:
+                if l.startswith("unlock:"):
+                    seen_unlock.add(l.split(":", 1)[1])
+                elif l.startswith("set_lock:") and l.split(":", 1)[1] in seen_unlock:
+                    stats["lock_reacquired_after_explicit_commit_or_rollback"] = 1
+            if kind != "ok" and sp["commits"] and ngroups:
+                stats["block_ended_by_exception_after_explicit_commit"] = 1
         if st:
             within[tid] = st[-1][4] - st[0][4] < p["timeout"]
     txs = [i for i, p in enumerate(progs) if p["kind"] == "tx"]
@@ -312,10 +419,14 @@ def oracle(case, res):
         users = writers + retimers
         if not users or any(op[0] != "incr" or progs[i]["kind"] != "tx" for i, op in writers):
             continue
-        total = sum(op[2] for i, op in writers if outs[i].startswith("ret:"))
+        if any(durable.get(i) is None for i, _ in writers):
+            continue
+        # the increments of the segments that were committed: explicitly by tx.commit(), or by the end of a block that returned;
+        # not those of a segment ended by tx.rollback(), an exception, LockedError or a cancellation
+        total = sum(n for i in {i for i, _ in writers} for kk, n in durable[i] if kk == k)
         init = int(case["init"].get(k, case["init"].get(str(k), 0)) or 0)
         final = res["final"].get(k)
-        committed = any(outs[i].startswith("ret:") for i, _ in writers)
+        committed = any(kk == k for i in {i for i, _ in writers} for kk, _ in durable[i])
         present = k in case["init"] or str(k) in case["init"]
         lost = final != ((init + total) if (present or committed) else None)
         if len({i for i, _ in users}) >= 2:
@@ -354,15 +465,16 @@ def oracle(case, res):
                     name = lab.split(":", 1)[1]
                     full = ":serializable:lock" if name == "g" else ":tx_lock:" + name
                     if locks.get(full) == tid:
-                        # serializable: the write phase of a transaction is from its first lock to its last unlock, whatever
-                        # the lock is called; locked: one phase per key
+                        # a write phase is from the step that takes the lock to the step that releases it (the end of the block, or
+                        # an explicit commit / rollback: a body may have several); serializable: whatever the lock is called;
+                        # locked: one phase per key
                         group = spans.setdefault("(any)" if serial else name, [])
-                        if not (serial and any(s[0] == tid for s in group)):
+                        if not any(s[0] == tid and s[2] is None for s in group):
                             group.append([tid, g, None])
                 elif lab.startswith("unlock:"):
                     name = lab.split(":", 1)[1]
                     for s in spans.get("(any)" if serial else name, []):
-                        if s[0] == tid and (s[2] is None or serial):
+                        if s[0] == tid and s[2] is None:
                             s[2] = g
         # the store is written only inside a write phase: a commit command of a locked / serializable transaction is issued
         # while it holds a lock
@@ -412,8 +524,11 @@ def oracle(case, res):
 # ---- running cases --------------------------------------------------------------------------------------
 
 def exec_case(case):
+    for i, p in enumerate(case["programs"]):
+        if not handles_ok(p["ops"], p.get("form", "ctx") if p["kind"] == "tx" else "none"):
+            raise HarnessError(f"task {i} of {json.dumps(case)} calls commit / rollback without a Transaction object at hand")
     try:
-        return txsched.execute(case["init"], case["programs"], case["schedule"])
+        return txsched.execute(case["init"], case["programs"], case["schedule"], cancels=case.get("cancels", 0))
     except txsched.SchedError as exc:
         raise HarnessError(f"scheduler: {exc} on {json.dumps(case)}")
 
@@ -435,6 +550,12 @@ def model_diff(case, res, answers):
             want = f"label={canon_label(e[2])} {canon_world(data, locks, now)}"
             if a != want:
                 return f"step {si - 1} (task {e[1]}): impl `{want}` model `{a}`"
+        elif e[0] == "cancel":
+            data, locks, now = res["snaps"][si]
+            si += 1
+            want = canon_world(data, locks, now)
+            if a != want:
+                return f"step {si - 1} (task {e[1]} cancelled): impl `{want}` model `{a}`"
         else:
             now += e[1]
             if not a.endswith(f" now={now}"):
@@ -506,6 +627,9 @@ def shrink(case, pred):
         elif len(ops) >= 2:
             small = ddmin(ops, lambda o: ok(with_ops(o)))
             cur = with_ops(small)
+    # fewer cancellations
+    while cur.get("cancels", 0) > 0 and ok(dict(cur, cancels=cur["cancels"] - 1)):
+        cur = dict(cur, cancels=cur["cancels"] - 1)
     # shrink the schedule
     if ok(dict(cur, schedule=[])):
         cur = dict(cur, schedule=[])
@@ -531,6 +655,10 @@ def describe(r):
             data, locks, now = res["snaps"][si]
             si += 1
             rows.append({"step": f"run {e[1]}", "impl": f"label={canon_label(e[2])} {canon_world(data, locks, now)}", "model": a})
+        elif e[0] == "cancel":
+            data, locks, now = res["snaps"][si]
+            si += 1
+            rows.append({"step": f"cancel {e[1]}", "impl": canon_world(data, locks, now), "model": a})
         else:
             rows.append({"step": f"adv {e[1]}", "model": a})
     return rows
@@ -605,6 +733,27 @@ def exhaustive_families():
         fams.append((f"{mode}: a call creating and a call deleting a key against conditional sets (only-if-absent, only-if-present) of it",
                      {2: 1}, [tx(mode, [["set", 1, 5], ["del", 2]], "ctx", 40),
                               tx(mode, [["setx", 1, 7, 0], ["setx", 1, 8, 1], ["setx", 2, 9, 1]], "dec", 40)], True))
+    for mode in ("fast", "locked", "serializable"):
+        # explicit tx.commit() / tx.rollback() in the middle of a body: the locks are given back, later writes take them again
+        fams.append((f"{mode}: incr; tx.commit(); incr against an incrementing call (the lock changes hands between the two segments)",
+                     {}, [tx(mode, [["incr", 0, 1], ["commit"], ["incr", 0, 1]], "ctx", 40), tx(mode, [["incr", 0, 5]], "dec", 40)], True))
+        fams.append((f"{mode}: incr; tx.rollback(); incr; set of a second key against an incrementing call",
+                     {0: 1}, [tx(mode, [["incr", 0, 1], ["rollback"], ["incr", 0, 2], ["set", 1, 7]], "ctx", 40),
+                              tx(mode, [["incr", 0, 10]], "dec", 40)], True))
+        fams.append((f"{mode}: delete + set, tx.commit() inside a nested block, then a raising tail, against a plain reader",
+                     {0: 1, 1: 2}, [tx(mode, [["del", 1], ["set", 0, 4], ["nin", "ctx"], ["commit"], ["nout"], ["incr", 0, 1], ["raise"]], "dec", 40),
+                                    plain([["get", 0], ["get", 1]])], True))
+    for mode in ("fast", "locked", "serializable"):
+        # cancellation at every gate of a body (one cancellation per run, any task, any moment it is suspended inside its block)
+        fams.append((f"{mode}: CANCEL anywhere: incr + set of a second key against an incrementing call",
+                     {0: 1}, [tx(mode, [["incr", 0, 1], ["set", 1, 5]], "ctx", 40), tx(mode, [["incr", 0, 2]], "dec", 40)], True, 1))
+        fams.append((f"{mode}: CANCEL anywhere: delete, sleep, conditional set and expire in a decorated call against a plain writer",
+                     {1: 3}, [tx(mode, [["del", 1], ["sleep", 1], ["setx", 0, 4, 0], ["expire", 1]], "dec", 40), plain([["set", 1, 8]])], True, 1))
+        fams.append((f"{mode}: CANCEL anywhere: incr; tx.commit(); incr (only the open segment is dropped)",
+                     {}, [tx(mode, [["incr", 0, 1], ["commit"], ["incr", 0, 1]], "ctx", 40), tx(mode, [["incr", 0, 5]], "ctx", 40)],
+                     mode != "locked", 1))
+    fams.append(("locked: a body raising a BaseException that is not an Exception while holding two locks, against a waiting call",
+                 {0: 1}, [tx("locked", [["incr", 0, 1], ["set", 1, 2], ["raise", "base"]], "ctx", 40), tx("locked", [["incr", 0, 2]], "dec", 40)], True))
     fams.append(("locked: opposite lock order with a short timeout (deadlock broken by LockedError)",
                  {}, [tx("locked", [["incr", 0, 1], ["incr", 1, 1]], "dec", 20), tx("locked", [["incr", 1, 1], ["incr", 0, 1]], "dec", 20)], True))
     fams.append(("serializable: holder sleeps past a short timeout (lease expires)",
@@ -619,35 +768,38 @@ def exhaustive_families():
     return fams
 
 
-def gen_ops(rng, in_tx: bool, nmax: int):
+def gen_ops(rng, in_tx: bool, nmax: int, form: str = "ctx"):
     ops = []
-    depth = 0
+    stack = [form]          # forms of the open blocks: commit / rollback need a `Transaction` object (a ctx-form block around them)
     for _ in range(rng.randint(1, nmax)):
         r = rng.random()
         k = rng.choice([0, 0, 0, 1, 1, 2, 3][: 7])
-        if r < 0.34:
+        if r < 0.32:
             ops.append(["incr", k, rng.choice([1, 1, 2, -1, 3])])
-        elif r < 0.49:
+        elif r < 0.46:
             ops.append(["set", k, rng.randint(-2, 9)])
-        elif r < 0.62:
+        elif r < 0.57:
             ops.append(["get", k])
-        elif r < 0.71:
+        elif r < 0.65:
             ops.append(["del", k])
-        elif r < 0.77:
+        elif r < 0.70:
             ops.append(["expire", k] if rng.random() < 0.7 else ["expire", k, 7200])
-        elif r < 0.82:
+        elif r < 0.75:
             ops.append(["setx", k, rng.randint(-2, 9), rng.randint(0, 1)])
-        elif r < 0.88:
+        elif r < 0.80:
             ops.append(["sleep", rng.choice([1, 1, 2, 4, 8])])
+        elif r < 0.82:
+            ops.append(["raise"] if rng.random() < 0.6 else ["raise", "base"])
         elif r < 0.90:
-            ops.append(["raise"])
-        elif in_tx and r < 0.96 and depth < 2:
+            if in_tx and "ctx" in stack:
+                ops.append(["commit"] if rng.random() < 0.6 else ["rollback"])
+        elif in_tx and r < 0.96 and len(stack) < 3:
             ops.append(["nin", rng.choice(["ctx", "dec"])])
-            depth += 1
-        elif in_tx and depth > 0:
+            stack.append(ops[-1][1])
+        elif in_tx and len(stack) > 1:
             ops.append(["nout"])
-            depth -= 1
-    return ops + [["nout"]] * depth
+            stack.pop()
+    return ops + [["nout"]] * (len(stack) - 1)
 
 
 def gen_case(rng, ntasks_max: int, style: int):
@@ -658,7 +810,7 @@ def gen_case(rng, ntasks_max: int, style: int):
     programs = []
     for i in range(n):
         if i > 0 and rng.random() < 0.2:
-            programs.append(plain([op for op in gen_ops(rng, False, 4) if op[0] not in ("nin", "nout")]))
+            programs.append(plain([op for op in gen_ops(rng, False, 4) if op[0] not in ("nin", "nout", "commit", "rollback")]))
             continue
         mode = mode0 if uniform else rng.choice(["fast", "locked", "serializable"])
         to = to0 if uniform or rng.random() < 0.5 else rng.choice([20, 40, 400])
@@ -666,30 +818,35 @@ def gen_case(rng, ntasks_max: int, style: int):
         if style == 1:
             # counter workload: only increments and re-timings (and reads / sleeps) so that the no-lost-increments statement applies
             ops = []
-            for _ in range(rng.randint(1, 4)):
+            for _ in range(rng.randint(1, 5)):
                 r = rng.random()
                 ops.append(["incr", rng.choice([0, 0, 1]), rng.choice([1, 2, 1, -1])] if r < 0.55 else
-                           ["expire", rng.choice([0, 0, 1])] if r < 0.73 else
-                           ["get", rng.choice([0, 1])] if r < 0.86 else ["sleep", rng.choice([1, 2])] if r < 0.95 else ["raise"])
+                           ["expire", rng.choice([0, 0, 1])] if r < 0.70 else
+                           ["get", rng.choice([0, 1])] if r < 0.80 else ["sleep", rng.choice([1, 2])] if r < 0.87 else
+                           ["commit"] if r < 0.93 else ["rollback"] if r < 0.96 else ["raise"] if r < 0.98 else ["raise", "base"])
             if rng.random() < 0.3:
                 ops = [["nin", rng.choice(["dec", "ctx"])]] + ops + [["nout"]]
+            if not handles_ok(ops, form):
+                ops = [op for op in ops if op[0] not in ("commit", "rollback")]
         else:
-            ops = gen_ops(rng, True, 6)
+            ops = gen_ops(rng, True, 6, form)
         programs.append(tx(mode, ops, form, to))
     init = {k: rng.randint(0, 5) for k in range(NKEYS) if rng.random() < (0.4 if style != 1 else 0.6)}
-    schedule = [rng.randint(0, 3) if rng.random() < 0.8 else 0 for _ in range(rng.randint(5, 80))]
-    return {"init": init, "programs": programs, "schedule": schedule}
+    cancels = rng.choice([0, 0, 0, 1, 1, 2])
+    schedule = [rng.randint(0, 3 if not cancels else 6) if rng.random() < 0.8 else 0 for _ in range(rng.randint(5, 80))]
+    return {"init": init, "programs": programs, "schedule": schedule, "cancels": cancels}
 
 
 def corpus_cases():
     d = ROOT / "corpus" / PROP
     for f in sorted(d.glob("*.json")):
         c = json.loads(f.read_text())
-        yield f.name, {"init": {int(k): v for k, v in c["init"].items()}, "programs": c["programs"], "schedule": c["schedule"]}
+        yield f.name, norm_case(c)
 
 
 def norm_case(c):
-    return {"init": {int(k): v for k, v in c["init"].items()}, "programs": c["programs"], "schedule": list(c["schedule"])}
+    return {"init": {int(k): v for k, v in c["init"].items()}, "programs": c["programs"], "schedule": list(c["schedule"]),
+            "cancels": int(c.get("cancels", 0))}
 
 
 # ---- the check ------------------------------------------------------------------------------------------
@@ -715,11 +872,13 @@ def run(chk: Check) -> int:
             for k in r["stats"]:
                 interesting[k] = interesting.get(k, 0) + 1
             if r["stats"]:
-                nontrivial.add(json.dumps([r["case"]["init"], r["case"]["programs"], r["res"]["choices"]], sort_keys=True))
+                nontrivial.add(json.dumps([r["case"]["init"], r["case"]["programs"], r["res"]["choices"], r["case"].get("cancels", 0)], sort_keys=True))
             for e in r["res"]["trace"]:
                 if e[0] == "run":
                     n = e[2][0]
                     label_hist[n] = label_hist.get(n, 0) + 1
+                elif e[0] == "cancel":
+                    label_hist["(task cancelled)"] = label_hist.get("(task cancelled)", 0) + 1
                 else:
                     label_hist["(time passes)"] = label_hist.get("(time passes)", 0) + 1
             for o in r["res"]["outcomes"].values():
@@ -747,11 +906,13 @@ def run(chk: Check) -> int:
     # 2. exhaustive schedule enumeration of the small families (the bigger ones only in the thorough tier;
     #    in the quick tier those get random schedules instead)
     per_family_limit = 200000
-    for title, init, programs, in_quick in exhaustive_families():
+    for title, init, programs, in_quick, *more in exhaustive_families():
+        ncancel = more[0] if more else 0
         if found >= MAXFOUND:
             break
         if not (in_quick or chk.thorough):
-            batch = [{"init": init, "programs": programs, "schedule": [chk.rng.randint(0, 2) for _ in range(40)]} for _ in range(120)]
+            batch = [{"init": init, "programs": programs, "schedule": [chk.rng.randint(0, 2 + 2 * ncancel) for _ in range(40)],
+                      "cancels": ncancel} for _ in range(120)]
             account(batch, "sampled-schedules:" + title)
             continue
         count = 0
@@ -765,10 +926,10 @@ def run(chk: Check) -> int:
             batch = []
             batch_res = []
             for prefix in batch_prefixes:
-                case = {"init": init, "programs": programs, "schedule": prefix}
+                case = {"init": init, "programs": programs, "schedule": prefix, "cancels": ncancel}
                 res = exec_case(case)
                 br, full = res["branching"], res["choices"]
-                batch.append({"init": init, "programs": programs, "schedule": full})
+                batch.append({"init": init, "programs": programs, "schedule": full, "cancels": ncancel})
                 batch_res.append(res)
                 for i in range(len(br) - 1, len(prefix) - 1, -1):
                     for c in range(1, br[i]):
@@ -803,7 +964,10 @@ def run(chk: Check) -> int:
                 "a lost update in fast mode, a counter shared by >= 2 transactions, an `expire` inside a transaction that buffered the backend's "
                 "value (= read-modify-write), such a transaction that had to wait for a lock, a counter incremented by one transaction and re-timed by "
                 "another, a commit with several TTL groups, a conditional set that consulted the backend, a read-modify-write read issued under the "
-                "key's lock); distinct = distinct (init, programs, resolved choice sequence)",
+                "key's lock, a task cancelled inside its block - with buffered writes / holding locks / while waiting for a lock -, a task outside "
+                "any transaction cancelled, a BaseException that is not an Exception leaving a block, an explicit tx.commit() / tx.rollback() in the "
+                "middle of a body, a lock given back by it and taken again later in the same block, a block ended by an exception after an explicit "
+                "commit); distinct = distinct (init, programs, resolved choice sequence, cancellation budget)",
         "exhaustive": all(e["complete"] for e in exhaustive) and bool(exhaustive),
         "exhaustive_families": exhaustive,
         "samples": samples,
@@ -813,7 +977,10 @@ def run(chk: Check) -> int:
         "interesting_states_cases": interesting,
         "trusted_base": TRUSTED,
         "partial": "the model cannot exhibit: preemption inside a backend command or inside task-local code (asyncio A1), a ContextVar leaking "
-                   "between tasks (A3), cancellation, more than one transaction block per task, TTL values (expire is modelled as what it does to "
+                   "between tasks (A3), cancellation of a task that is inside a commit (set_many / delete_many issued by __aexit__ or by an explicit "
+                   "tx.commit()) or inside the unlocks, or that has not started (cancellation inside the body - before any backend command of it, in a "
+                   "lock wait, in a sleep - IS modelled and exercised), KeyboardInterrupt / SystemExit (a user BaseException subclass stands for the "
+                   "non-Exception BaseExceptions), more than one transaction block per task, TTL values (expire is modelled as what it does to "
                    "values; another task's command between the set_many commands of the TTL groups of one commit), non-integer values inside the block, "
                    "the multi-key commands (set_many / delete_many / delete_match / get_many issued by a body), "
                    "a second backend/prefix, orders of the gathered unlocks other than by lock key, more than 4 tasks",
